@@ -83,47 +83,104 @@ fn split_member_target(
     span: &Span,
     ident_provider: &mut dyn IdentProvider,
 ) -> (AssignTarget, Box<Expr>) {
-    if let SimpleAssignTarget::Member(member) = target {
-        let mut write = member.clone();
-        let mut read = member.clone();
+    match target {
+        SimpleAssignTarget::Member(member) => {
+            let mut write = member.clone();
+            let mut read = member.clone();
 
-        // the evaluation of a computed key can reassign the object when it is an identifier:
-        // `o[(o = other, k)] += s` reads and writes the former `o`
-        let key_has_effects = matches!(&member.prop, MemberProp::Computed(computed)
-            if !(computed.expr.is_ident() || computed.expr.is_this() || computed.expr.is_lit()));
+            // the evaluation of a computed key can reassign the object when it is an identifier:
+            // `o[(o = other, k)] += s` reads and writes the former `o`
+            let key_has_effects = matches!(&member.prop, MemberProp::Computed(computed)
+                if !(computed.expr.is_ident() || computed.expr.is_this() || computed.expr.is_lit()));
 
-        if let Some((assignation, ident)) =
-            assign_to_temporal(&member.obj, key_has_effects, span, ident_provider)
-        {
-            write.obj = Box::new(assignation);
-            read.obj = Box::new(ident);
-        }
-
-        if let MemberProp::Computed(computed) = &member.prop {
             if let Some((assignation, ident)) =
-                assign_to_temporal(&computed.expr, false, span, ident_provider)
+                assign_to_temporal(&member.obj, key_has_effects, span, ident_provider)
             {
-                write.prop = MemberProp::Computed(ComputedPropName {
-                    span: computed.span,
-                    expr: Box::new(assignation),
-                });
-                read.prop = MemberProp::Computed(ComputedPropName {
-                    span: computed.span,
-                    expr: Box::new(ident),
-                });
+                write.obj = Box::new(assignation);
+                read.obj = Box::new(ident);
             }
+
+            if let MemberProp::Computed(computed) = &member.prop {
+                if let Some((write_key, read_key)) =
+                    split_computed_key(computed, span, ident_provider)
+                {
+                    write.prop = MemberProp::Computed(write_key);
+                    read.prop = MemberProp::Computed(read_key);
+                }
+            }
+
+            (
+                AssignTarget::Simple(SimpleAssignTarget::Member(write)),
+                Box::new(Expr::Member(read)),
+            )
         }
 
-        return (
-            AssignTarget::Simple(SimpleAssignTarget::Member(write)),
-            Box::new(Expr::Member(read)),
-        );
-    }
+        // `super[k()] += s`
+        SimpleAssignTarget::SuperProp(super_prop) => {
+            let mut write = super_prop.clone();
+            let mut read = super_prop.clone();
 
-    (
-        AssignTarget::Simple(target.clone()),
-        target.clone().into(),
-    )
+            if let SuperProp::Computed(computed) = &super_prop.prop {
+                if let Some((write_key, read_key)) =
+                    split_computed_key(computed, span, ident_provider)
+                {
+                    write.prop = SuperProp::Computed(write_key);
+                    read.prop = SuperProp::Computed(read_key);
+                }
+            }
+
+            (
+                AssignTarget::Simple(SimpleAssignTarget::SuperProp(write)),
+                Box::new(Expr::SuperProp(read)),
+            )
+        }
+
+        // `(o().p) += s`: the parentheses do not change what the target is
+        SimpleAssignTarget::Paren(paren) => {
+            if let Ok(inner) = SimpleAssignTarget::try_from(paren.expr.clone()) {
+                if let (AssignTarget::Simple(write), read) =
+                    split_member_target(&inner, span, ident_provider)
+                {
+                    let write_paren = ParenExpr {
+                        span: paren.span,
+                        expr: write.into(),
+                    };
+                    return (
+                        AssignTarget::Simple(SimpleAssignTarget::Paren(write_paren)),
+                        read,
+                    );
+                }
+            }
+
+            (
+                AssignTarget::Simple(target.clone()),
+                target.clone().into(),
+            )
+        }
+
+        _ => (
+            AssignTarget::Simple(target.clone()),
+            target.clone().into(),
+        ),
+    }
+}
+
+fn split_computed_key(
+    computed: &ComputedPropName,
+    span: &Span,
+    ident_provider: &mut dyn IdentProvider,
+) -> Option<(ComputedPropName, ComputedPropName)> {
+    let (assignation, ident) = assign_to_temporal(&computed.expr, false, span, ident_provider)?;
+    Some((
+        ComputedPropName {
+            span: computed.span,
+            expr: Box::new(assignation),
+        },
+        ComputedPropName {
+            span: computed.span,
+            expr: Box::new(ident),
+        },
+    ))
 }
 
 fn assign_to_temporal(
